@@ -17,6 +17,7 @@ limitations under the License.
 package dom
 
 import (
+	"fmt"
 	"reflect"
 
 	"gopkg.in/yaml.v3"
@@ -58,6 +59,33 @@ func decodeLeafFn(v interface{}) Leaf {
 	return LeafNode(v)
 }
 
+// toStringMap converts any map value into map[string]interface{}.
+// Keys that are not strings (e.g. produced by YAML decoder for "1: x") are formatted using fmt.Sprint.
+func toStringMap(v interface{}) map[string]interface{} {
+	if m, ok := v.(map[string]interface{}); ok {
+		return m
+	}
+	rv := reflect.ValueOf(v)
+	m := make(map[string]interface{}, rv.Len())
+	for iter := rv.MapRange(); iter.Next(); {
+		m[fmt.Sprint(iter.Key().Interface())] = iter.Value().Interface()
+	}
+	return m
+}
+
+// toSlice converts any slice or array value into []interface{}.
+func toSlice(v interface{}) []interface{} {
+	if s, ok := v.([]interface{}); ok {
+		return s
+	}
+	rv := reflect.ValueOf(v)
+	s := make([]interface{}, rv.Len())
+	for i := range s {
+		s[i] = rv.Index(i).Interface()
+	}
+	return s
+}
+
 func decodeListFn(v []interface{}, l ListBuilder) {
 	for _, item := range v {
 		if item == nil {
@@ -67,10 +95,10 @@ func decodeListFn(v []interface{}, l ListBuilder) {
 		t := reflect.ValueOf(item)
 		switch t.Kind() {
 		case reflect.Map:
-			l.Append(DefaultNodeDecoderFn(item.(map[string]interface{})))
+			l.Append(DefaultNodeDecoderFn(toStringMap(item)))
 		case reflect.Slice, reflect.Array:
 			list := &listBuilderImpl{}
-			decodeListFn(item.([]interface{}), list)
+			decodeListFn(toSlice(item), list)
 			l.Append(list)
 		default:
 			// scalars and any other value (e.g. time.Time) are kept as leaf
@@ -87,10 +115,10 @@ func decodeContainerFn(current *map[string]interface{}, parent ContainerBuilder)
 			t := reflect.ValueOf(v)
 			switch t.Kind() {
 			case reflect.Map:
-				ref := v.(map[string]interface{})
+				ref := toStringMap(v)
 				decodeContainerFn(&ref, parent.AddContainer(k))
 			case reflect.Slice, reflect.Array:
-				decodeListFn(v.([]interface{}), parent.AddList(k))
+				decodeListFn(toSlice(v), parent.AddList(k))
 			default:
 				// scalars and any other value (e.g. time.Time) are kept as leaf
 				parent.AddValue(k, decodeLeafFn(v))
